@@ -10,5 +10,5 @@ CONSTANTS
   InitKinds = {"dead"}
   StoreExp = {"live"}
   Bug = {}
-INVARIANTS TypeOK LocksetDiscipline AccessRelationRespected NoTornExpiry NoLostInvalidate RefinesSeq Linearizable
+INVARIANTS TypeOK LocksetDiscipline AccessRelationRespected NoTornExpiry NoLostInvalidate RefinesSeq Linearizable HandshakeUndisturbed
 CHECK_DEADLOCK FALSE
